@@ -69,6 +69,28 @@ def run(ctx):
         text += 'action a appliesTo { principal: [A], resource: [B], context: T };\n'
         n += 1
         cases.append('(case t%d schemarun text %s %s %s %s)' % (n, S(text), sx.dump(pols), sx.dump(store), sx.dump(req)))
+    # the same reference graphs with the common types spread over the empty namespace and a namespace NS, referenced by unqualified
+    # name (own namespace first, then the empty namespace) or by qualified name; every type is used by an entity of each namespace
+    placements = list(itertools.product(['', 'NS'], repeat=3))
+    for tg in itertools.product(subsets, repeat=3):
+        for place in (placements if not quick else r.sample(placements, 2)):
+            ns_of = dict(zip(tnames, place))
+            tmap = {'A': 'T', 'B': 'U', 'C': 'V'}
+
+            def ref(x, frm):
+                if ns_of[x] == 'NS':
+                    return 'NS::' + x if (frm != 'NS' or r.random() < 0.5) else x
+                return x
+            decl = {'': '', 'NS': ''}
+            for tn, refs in zip(tnames, tg):
+                fields = ', '.join('f%d: %s' % (i, r.choice(['%s', 'Set<%s>', '{ g: %s }']) % ref(tmap[x], ns_of[tn])) for i, x in enumerate(refs))
+                decl[ns_of[tn]] += 'type %s = { %s };\n' % (tn, fields)
+            text = decl[''] + 'entity A { p: %s, q?: %s }; entity B; entity C;\n' % (ref('T', ''), ref('V', ''))
+            text += 'action a appliesTo { principal: [A], resource: [B], context: %s };\n' % ref('U', '')
+            text += 'namespace NS {\n' + decl['NS'] + 'entity N { p: %s, q?: %s } tags %s;\n' % (ref('T', 'NS'), ref('U', 'NS'), ref('V', 'NS'))
+            text += 'action n appliesTo { principal: [N], resource: [N], context: { c: %s } };\n}\n' % ref('T', 'NS')
+            n += 1
+            cases.append('(case x%d schemarun text %s %s %s %s)' % (n, S(text), sx.dump(pols), sx.dump(store), sx.dump(req)))
     for i in range(600 if quick else 30000):
         n += 1
         cases.append('(case r%d schemarun text %s %s %s %s)' % (n, S(schematext.schema_text(r)), sx.dump(pols), sx.dump(store), sx.dump(req)))
@@ -78,7 +100,7 @@ def run(ctx):
         n += 1
         cases.append('(case w%d schemarun text %s %s %s %s)' % (n, S(sch.text()), sx.dump(ps), sx.dump(sch.store()), sx.dump(sch.request())))
     ctx.rule = ('all 512 entity-type parent graphs on 3 names (self loops, cycles, diamonds) x sampled action-group graphs, all 512 common-type '
-                'reference graphs on 3 names (direct, through Set<>, through nested records), random full-featured schemas (undefined references, '
+                'reference graphs on 3 names (direct, through Set<>, through nested records), the same graphs with the types spread over two namespaces and referenced by qualified / unqualified names, random full-featured schemas (undefined references, '
                 'shadowing, namespaces, enums), well-formed schemas with typed policies; each resolved and used to validate 6 text policies with '
                 '`in` / `is..in` / attribute chains + 18 policies with set / record / extension literals, a store and a request, in both modes. '
                 'non-trivial = the schema resolved and the validator ran')
